@@ -8,6 +8,7 @@ from typing_extensions import TypeAlias
 
 from pane.classes import PaneBase, field
 from pane.converters import UnionConverter
+from pane.errors import ErrorNode
 from pane.convert import Convertible, DataType, into_data, ConverterHandlers
 from pane.annotations import (
     Positive, NonNegative, Negative, NonPositive, Finite,
@@ -132,6 +133,17 @@ class ValueOrListConverter(UnionConverter):
     def expected(self, plural: bool = False) -> str:
         inner = self.converters[0].expected(plural)
         return f"{inner} or sequence of {inner}"
+
+    def try_convert(self, val: t.Any) -> t.Any:
+        if isinstance(val, ValueOrList):
+            # already converted (`try_convert` is idempotent; an enclosing union relies on that to serialize)
+            return t.cast(ValueOrList[t.Any], val).map(self.converters[0].try_convert)
+        return super().try_convert(val)
+
+    def collect_errors(self, val: t.Any) -> t.Optional[ErrorNode]:
+        if isinstance(val, ValueOrList):
+            return self.converters[int(not val._is_val)].collect_errors(val._inner)
+        return super().collect_errors(val)
 
     def into_data(self, val: t.Any) -> DataType:
         if not isinstance(val, ValueOrList):
